@@ -47,11 +47,11 @@ Inductive pcT :=
 | MonSetLock | MonSetUnlock | MonSetSignal
 | MtxLockP | MtxTryP | MtxUnlockP
 | SemPostP | SemWaitP | SemTryP | SemWaitTP (dl : dlT)
-| ThStartP (c : tid) | ThJoinP (c : tid).
+| ThStartP (c : tid) | ThStartRet (c : tid) | ThJoinP (c : tid).
 
 Definition pending (p : pcT) : prim_call :=
   match p with
-  | Idle => PYield
+  | Idle | ThStartRet _ => PYield
   | SigSetLock | SigResetLock | SigWaitLock _ => PLock SM
   | SigSetUnlock | SigResetUnlock | SigWaitUnlock _ => PUnlock SM
   | SigSetBcast => PBroadcast SC
@@ -155,7 +155,11 @@ Definition after_return (w : world) (t : tid) (p : pcT) (r : Z) : world :=
       else if r =? EINTR then w               (* errno == EINTR: continue *)
       else finish_false w t
   (* Thread *)
-  | ThStartP c => if r =? 0 then finish (set_handle w c true) t 1 else finish w t 0
+  (* Thread::start : pthread_create; [the new thread may run from here on]; this->thread = handle; return true.
+     ThStartRet is the point between the return of pthread_create and the creator's code after it (pending call
+     PYield, always enabled): the child can be scheduled first *)
+  | ThStartP c => if r =? 0 then goto w t (ThStartRet c) else finish w t 0
+  | ThStartRet c => finish (set_handle w c true) t 1
   | ThJoinP c => finish (emit (set_handle w c false) (EvJoin t c r)) t r
   end.
 
@@ -244,9 +248,12 @@ Definition run (w : world) (sched : list move) : world := fold_left step sched w
 Definition enabled (w : world) (t : tid) : bool :=
   prim_enabled (ps w) t (pending (pc (tc w t))).
 
-(* scripts : what each thread runs; started t : thread t is running from the beginning (otherwise
+(* scripts : what each thread runs; results t : the value thread t's function returns; started t : thread t is running from the beginning (otherwise
    it has to be started with ThStart); sig0 / sem0 : constructor arguments *)
-Definition init (scripts : tid -> list libcall) (started : tid -> bool) (sig0 : bool) (sem0 : Z) : world :=
+(* the results of the standard scenarios: thread t's function returns 100 + t *)
+Definition res100 (t : tid) : Z := 100 + Z.of_nat t.
+
+Definition init (scripts : tid -> list libcall) (results : tid -> Z) (started : tid -> bool) (sig0 : bool) (sem0 : Z) : world :=
   {| ps := {| mtx := fun m => mk_mutex (Nat.eqb m XM);
               cnd := fun _ => [];
               sem := fun _ => sem0;
@@ -254,5 +261,5 @@ Definition init (scripts : tid -> list libcall) (started : tid -> bool) (sig0 : 
               now := 0 |};
      sigf := sig0; monf := false; occ := 0;
      handle := fun _ => false;
-     tc := fun t => {| pc := Idle; script := scripts t; cur := CsLeave; tstart := 0; result := 100 + Z.of_nat t |};
+     tc := fun t => {| pc := Idle; script := scripts t; cur := CsLeave; tstart := 0; result := results t |};
      trace := []; mark := fun _ => false |}.
